@@ -10,9 +10,14 @@
 (* body[i] / rcbody[i]: the sequence of fragment i and its reverse           *)
 (* complement - and ends with [ev |-> "return", result].                     *)
 (*                                                                           *)
-(* Which goroutine an event belongs to is NOT logged: TLC infers it (any     *)
-(* goroutine of the model whose chain spells the logged overhangs /          *)
-(* construct).  Grain of atomicity:                                          *)
+(* Which goroutine an event belongs to is not logged as an id; spawn, start  *)
+(* and done carry the chain spelled so far (forward overhang + sequence) and *)
+(* its open end, send / sent / recv the finished construct, so the goroutine *)
+(* of the model is determined by its chain (fragment bodies are distinct)    *)
+(* and the search is linear in the length of the trace.  (With overhangs     *)
+(* only, as first built, chains that share their ends made the inference     *)
+(* branch without bound: two validations ran for 45 minutes.)                *)
+(* Grain of atomicity:                                                       *)
 (*   spawn(F,R)    MainSeed, or GSpawn(g) for a g whose next candidate gives *)
 (*                 a chain with those overhangs                              *)
 (*   start, send   no model step (the model's goroutine exists from its      *)
@@ -52,7 +57,7 @@ Count(bag, c) == IF c \in DOMAIN bag THEN bag[c] ELSE 0
 Inc(bag, c) == IF c \in DOMAIN bag THEN [bag EXCEPT ![c] = @ + 1] ELSE bag @@ (c :> 1)
 Dec(bag, c) == [bag EXCEPT ![c] = @ - 1]
 Live(g) == gs[g].st # "done"
-Ovs(g, a, bb) == OvStr(FoC(gs[g].chain)) = a /\ OvStr(RoC(gs[g].chain)) = bb
+Ovs(g, a, bb) == Construct(gs[g].chain) = a /\ OvStr(RoC(gs[g].chain)) = bb
 
 TInit == /\ l = 1 /\ b = 1 /\ inchan = <<>> /\ early = <<>> /\ dead = FALSE
          /\ pool = <<>> /\ gs = <<>> /\ wg = 0 /\ closed = FALSE
@@ -69,10 +74,10 @@ Keep == UNCHANGED <<b, inchan, early, dead>>
 Explain(e) ==
     CASE e.ev = "spawn" ->
             /\ \/ /\ main.pc = "seed" /\ main.i <= Len(pool)
-                  /\ OvStr(pool[main.i].f) = e.a /\ OvStr(pool[main.i].r) = e.b
+                  /\ Construct(<<<<main.i, TRUE>>>>) = e.a /\ OvStr(pool[main.i].r) = e.b
                   /\ MainSeed
                \/ \E g \in Gids : /\ gs[g].st = "looping"
-                                  /\ OvStr(FoC(gs[g].chain)) = e.a /\ OvStr(Ro(pool, Cands[gs[g].k])) = e.b
+                                  /\ Construct(Append(gs[g].chain, Cands[gs[g].k])) = e.a /\ OvStr(Ro(pool, Cands[gs[g].k])) = e.b
                                   /\ GSpawn(g)
             /\ Keep
       [] e.ev = "start" -> (\E g \in Gids : Live(g) /\ Ovs(g, e.a, e.b)) /\ UNCHANGED vars /\ Keep
